@@ -550,6 +550,13 @@ def sdiv(I, st, x, y):
         if y > 0:
             return I.idiv(st, x, y)[0]
         return 0
+    from smir.interp import same_term
+    xs_ = z3.simplify(x) if is_sym(x) else x
+    ys_ = z3.simplify(y) if is_sym(y) else y
+    for (x0, y0, q0, r0) in st.ghost.get('divs', ()):
+        if same_term(x0, xs_) and same_term(y0, ys_):
+            return q0
+    x, y = xs_, ys_
     q = I.fresh('sq')
     r = I.fresh('sr')
     st.add(z3.And(z3.Implies(y > 0, z3.And(x == q * y + r, r >= 0, r < y)), z3.Implies(y <= 0, q == 0), q >= 0))
